@@ -33,7 +33,16 @@ PktCookies ==
 (* client subnet *)
 PktEcs ==
   { [Base EXCEPT !.opt = a, !.ecs = b, !.cd = c, !.proto = d, !.do = e] :
-      a \in {"none", "ok", "ver1"}, b \in EcsKinds, c \in BOOLEAN, d \in {"udp", "tcp"}, e \in BOOLEAN }
+      a \in {"none", "ok", "ver1", "dup"}, b \in EcsKinds, c \in BOOLEAN, d \in {"udp", "tcp"}, e \in BOOLEAN }
+
+(* relay: what an upstream's message may carry in its additional section against what the client negotiated, and a
+   request that arrives with two OPT records *)
+PktRelay ==
+  { [Base EXCEPT !.opt = a, !.ecs = b, !.cookie = c, !.proto = d, !.do = e, !.pad = f] :
+      a \in {"none", "ok", "dup"}, b \in {"none", "v4_24", "v4_32"}, c \in {"none", "c8"}, d \in {"udp", "tcp"}, e \in BOOLEAN, f \in BOOLEAN }
+ContentsRelay == {"pos", "nx", "ede", "upecs", "upcookie", "up2optF", "up2optL", "up2optB"}
+CfgSetRelay == {[nsid |-> FALSE, ratelimit |-> FALSE, ecs |-> e] : e \in {"off", "on"}}
+AsBuilt == FALSE
 
 CfgSetPlain == {CfgPlain}
 CfgSetRL == {[nsid |-> FALSE, ratelimit |-> TRUE, ecs |-> "off"], [nsid |-> TRUE, ratelimit |-> TRUE, ecs |-> "on"]}
@@ -41,5 +50,6 @@ CfgSetNsid == {CfgPlain, [nsid |-> TRUE, ratelimit |-> FALSE, ecs |-> "off"]}
 CfgSetEcs == {[nsid |-> FALSE, ratelimit |-> FALSE, ecs |-> e] : e \in {"off", "on", "invalid"}}
 ContentsSmall == {"pos", "nx"}
 ContentsEcs == {"pos", "upecs"}
-AllContents == {"pos", "signed", "nx", "nodata", "ede", "big", "servfail", "upecs", "upcookie", "cname", "cnamesplit", "panic", "hosts", "as112"}
+AllContents == {"pos", "signed", "nx", "nodata", "ede", "big", "servfail", "upecs", "upcookie", "cname", "cnamesplit", "panic", "hosts", "as112",
+                "up2optF", "up2optL", "up2optB"}
 =============================================================================
